@@ -374,8 +374,8 @@ type winEnv struct {
 	dir  string
 	opts klevdb.Options
 	l    klevdb.Log
-	m   *Model
-	clk atomic.Int64
+	m    *Model
+	clk  atomic.Int64
 }
 
 func newWinEnv(c *WinCase) (*winEnv, error) {
